@@ -211,7 +211,7 @@ func twoJoinedPorts(ctx *Ctx, na, nb int) {
 }
 
 func checkC18(ctx *Ctx) {
-	ctx.Res.Rule = "FileSource -> (optional stage with random task durations) -> StreamToSubStream -> joining process; sub-stream lengths {0,1,2,3,B,B+5} for SCIPIPE_BUFSIZE in {1,2,3}, separators {space, comma, colon}, with and without a path modifier (basename, %suffix, s/a/b/); non-trivial = at least two members; distinct by case. Checks: one task per sub-stream, the placeholder's expansion as seen by the command (members in arrival order, separated by SEP, each prefixed for the task's directory), the Lean formatting model's expansion, the concatenated contents, and the audit record's upstream keys."
+	ctx.Res.Rule = "FileSource -> (optional stage with random task durations) -> StreamToSubStream -> joining process; sub-stream lengths {0,1,2,3,B,B+5} for SCIPIPE_BUFSIZE in {1,2,3}, separators {space, comma, colon}, with and without a path modifier (basename, %suffix, s/a/b/); non-trivial = at least two members; distinct by case. Checks: one task per sub-stream, the placeholder's expansion as seen by the command (members in arrival order, separated by SEP, each prefixed for the task's directory), the Lean formatting model's expansion, the concatenated contents, and the audit record's upstream keys; also: a process with two joined in-ports fed by two sub-streams."
 	w := &Worker{}
 	defer w.Close()
 	r := NewRng(ctx.Seed)
